@@ -109,3 +109,28 @@ pub assume_specification<P: core::str::pattern::Pattern>[ str::ends_with::<P> ](
     ensures r == str_ends_with_pat(s@, p);
 pub assume_specification[ str::repeat ](s: &str, n: usize) -> (r: String)
     ensures r@.len() == s@.len() * n, forall|i: int| 0 <= i < r@.len() ==> #[trigger] r@[i] == s@[i % (s@.len() as int)];
+
+/// rule R9: `s.lines()` handed to iterator adapters
+#[verifier::external_body]
+pub fn vp_lines<'a>(s: &'a str) -> (r: VpIter<&'a str>)
+    ensures
+        r.rest() == lines_spec(s),
+        s@.len() > 0 ==> lines_spec(s).len() > 0,
+        forall|i: int| 0 <= i < lines_spec(s).len() ==> no_lf(#[trigger] lines_spec(s)[i]@),
+{ unimplemented!() }
+/// rule R9: `s.chars().position(pred)`: index (in characters) of the first character for which `pred` returned true
+#[verifier::external_body]
+pub fn vp_chars_position<F: FnMut(char) -> bool>(s: &str, pred: F) -> (r: Option<usize>)
+    requires forall|c: char| pred.requires((c,)),
+    ensures
+        r matches Some(k) ==> k < s@.len() && pred.ensures((s@[k as int],), true) && forall|i: int| 0 <= i < k ==> pred.ensures((#[trigger] s@[i],), false),
+        r is None ==> forall|i: int| 0 <= i < s@.len() ==> pred.ensures((#[trigger] s@[i],), false),
+{ unimplemented!() }
+/// UTF-8: a prefix of k ASCII characters occupies exactly k bytes, so byte offset k is a character boundary
+#[verifier::external_body]
+pub proof fn axiom_ascii_prefix(s: &str, k: int)
+    requires 0 <= k <= s@.len(), forall|i: int| 0 <= i < k ==> (#[trigger] s@[i]) == ' ',
+    ensures k <= s.spec_bytes().len(), bnd(s.spec_bytes(), k),
+        chars_of(s.spec_bytes().subrange(k, s.spec_bytes().len() as int)) =~= s@.subrange(k, s@.len() as int),
+        k == s@.len() ==> s.spec_bytes().len() == k,
+{}
